@@ -62,6 +62,14 @@ INFO = {
  "C17r4-exclude-matches-cwd-relative": ("C17", "exclusion also matches the pattern against the path relative to the current working directory", "an exclude pattern sensitive to the cwd-relative spelling + a change of working directory"),
  "C18r4-cwd-default-argument": ("C18", "config_template(cwd=os.getcwd()) default argument evaluated at import", "relative -o with the process having changed directory since `import cminx`: pages land outside the requested directory"),
  "C19r4-early-return-without-modules": ("C19", "cminx_gen_rst returns early when file(GLOB_RECURSE) finds no *.cmake below a directory input", "a directory without lower-case *.cmake files + settings that would document it anyway, or arguments that make CMinx fail"),
+ "C01r5-member-class-by-name": ("C01", "cpp_member/cpp_attr are attached to the open class whose NAME equals their class argument (textual match)", "a member whose class argument is spelled differently from the cpp_class() argument (other letter case, quoted): its doccomment vanishes"),
+ "C02r5-current-class-cache": ("C02", "a cached 'current class' set by cpp_class and reset to None (not to the enclosing class) by cpp_end_class", "an outer class that declares members after a nested class has ended"),
+ "C03r5-trigger-at-position-0": ("C03", "trigger test written as docstring.find(trigger) > 0", "a doccomment that BEGINS with the trigger string (and no cmake_parse_arguments in the body)"),
+ "C05r5-documented-dispatch-case": ("C05", "enterDocumented_command no longer lower-cases the command name (the undocumented dispatch still does)", "a documented FUNCTION/Macro/Cpp_Class written with upper-case letters: IndexError at the closing command"),
+ "C09r5-macro-member-strip-pattern": ("C09", "one helper picks the strip pattern and tests 'macro' before 'member'", "a member implemented by a macro with member and macro strip patterns configured differently"),
+ "C11r5-add-test-name-index-by-value": ("C11", "add_test drops the arguments at params.index(name) - 1 instead of at the NAME keyword's position", "NAME not first and an earlier argument equal to the test name"),
+ "C13r5-output-sibling-prefix": ("C13", "sub-directories whose path startswith the (nested) output directory are pruned, without a trailing separator", "-r, output nested in the input tree, and a sibling directory whose name starts with the output directory's name"),
+ "C20r5-option-overwrite-same-name": ("C20", "Directive.option() replaces an earlier option of the same name in place", "the same option name added twice to one directive"),
  "C18r2-sort-by-splitext": ("C18", "files sorted by (stem, extension) instead of by name", "a directory with names like Foo.cmake and Foo-x.cmake: stdout page order is not the sorted name order"),
 }
 
@@ -85,7 +93,7 @@ for name, (prop, change, needs) in INFO.items():
     d = os.path.join(R, "seeded", name)
     if not os.path.isdir(d):
         continue
-    r2 = "r2" if "r2-" in name else ("r3" if "r3-" in name else ("r4" if "r4-" in name else ""))
+    r2 = "r2" if "r2-" in name else ("r3" if "r3-" in name else ("r4" if "r4-" in name else ("r5" if "r5-" in name else "")))
     after = parse(os.path.join(R, ".logs", "seed%s_%s.log" % (r2, prop)))
     before = parse(os.path.join(R, ".logs", "seed%sbefore_%s.log" % (r2, prop)))
     meta = {"breaks_property": prop, "change": change, "needs_to_manifest": needs,
